@@ -342,6 +342,31 @@ def answerMeta (r : Req) (c : Cfg) : String :=
       s!"n={A.patternsLen} min={A.minLen} max={A.maxLen} mk={mk} plens={nums (P.map List.length)} pre={pre}"
   | _, _ => "bad-request:meta"
 
+/-- `presound cand=<candidate as printed by the harness>`: is this candidate acceptable for the
+span, i.e. does it satisfy the soundness contract the engine relies on (C05)?  `cnone`: no
+occurrence in the span; `cpos:i`: inside the span and no occurrence starts before `i`;
+`cmatch:m`: `m` is THE answer of the search on the span. -/
+def answerPreSound (r : Req) : String :=
+  match r.list? "pats", MatchKind.parse (r.getD "mk" "std"), r.bytes? "hay" with
+  | some P0, some k, some hay0 =>
+    let fold := r.flag "fold"
+    let P := if fold then P0.map (·.map foldByte) else P0
+    let hay := if fold then hay0.map foldByte else hay0
+    let s := r.natD "s" 0
+    let e := r.natD "e" hay.length
+    let occs := occList P hay s e false
+    let cand := r.getD "cand" ""
+    if cand == "cnone" then (if occs.isEmpty then "sound" else "unsound:match-dropped")
+    else if cand.startsWith "cpos:" then
+      match (cand.drop 5).toString.toNat? with
+      | some i => if s ≤ i && occs.all (fun m => decide (i ≤ m.start)) then "sound" else "unsound:skips-past-a-match-or-leaves-span"
+      | none => "bad-request:cand"
+    else if cand.startsWith "cmatch:" then
+      let want := findSpec k P hay s e false
+      if some (cand.drop 7).toString == want.map fmtMat then "sound" else "unsound:confirmed-match-is-not-the-answer"
+    else "bad-request:cand"
+  | _, _, _ => "bad-request:presound"
+
 /-- `packed … pcfg=v1;v2`: one answer per packed configuration -/
 def answerPacked (r : Req) (variant : String) : String :=
   match r.list? "pats", r.bytes? "hay" with
@@ -720,6 +745,7 @@ def respond (lineNo : Nat) (line : String) : List String :=
     | "certl1c" => [s!"{lineNo} - {answerCertL1c r}"]
     | "certdfa" => [s!"{lineNo} - {answerCertDfa r}"]
     | "certcontig" => [s!"{lineNo} - {answerCertContig r}"]
+    | "presound" => [s!"{lineNo} - {answerPreSound r}"]
     | "packed" => ((r.getD "pcfg" "default").splitOn ";").map fun v => s!"{lineNo} {v} {answerPacked r v}"
     | "pre" => (cfgsOf r).map fun c => s!"{lineNo} {c.name} {answerPre r c}"
     | "meta" => (cfgsOf r).map fun c => s!"{lineNo} {c.name} {answerMeta r c}"
